@@ -51,7 +51,7 @@ func init() {
 			})
 		})
 	register("C02",
-		"Decides that a wake-up cannot be lost or withheld by construction: every function that stores a terminal status reaches, on every return path, an exhaustive loop of blocking sends over the previous waiter list and clears the list, under the entry's write lock; the data invariant (not fetching => no waiters; unknown/fetching => no expiry) is inductive over the lookup, so no registered waiter is ever dropped; the fetcher's ticket is discharged exactly once on normal, error and downstream-panic exits of the cache middleware; the waiter's receive is a plain receive with no lock held; a configured proxy timeout reaches the upstream call. Liveness under the real scheduler is not decided.",
+		"Decides that a wake-up cannot be lost or withheld by construction: every function that stores a terminal status reaches, on every return path, an exhaustive loop of blocking sends over the previous waiter list and clears the list, under the entry's write lock; the data invariant (not fetching => no waiters; unknown/fetching => no expiry) is inductive over the lookup, so no registered waiter is ever dropped; the fetcher's ticket is discharged exactly once on normal, error and downstream-panic exits of the cache middleware, and nothing before it in the deferred completion can panic on a registry lookup that came back nil; the waiter's receive is a plain receive with no lock held; a configured proxy timeout reaches the upstream call. Liveness under the real scheduler is not decided.",
 		nil, func(c *Ctx) {
 			withAnchors(c, func(a *serverAnchors) {
 				ruleDrainShape(c, a.cacheA)
@@ -59,6 +59,7 @@ func init() {
 				ruleLocksNotCopied(c)
 				ruleCompletionPaths(c, a.cacheA, set("completes-on-every-path", "locked"))
 				ruleLookup(c, a.cacheA, set("state-determined", "invariant-expiry", "invariant-waiters", "no-waiter-dropped", "no-exit-unknown", "registration"))
+				ruleLookupNilChecked(c)
 				ruleStoreLoadAtomic(c, a.cacheA)
 				ruleLockedWrapper(c, a.cacheA)
 				ruleCacheMiddleware(c, a, set("ticket-discharge", "completion-only-by-fetcher"))
@@ -81,10 +82,11 @@ func init() {
 			})
 		})
 	register("C04",
-		"Decides that the expiry test (expiredAt >= clock read in this call) is applied on every lookup path that serves a hit or hit-for-pass state, after any load from the store and on the expiry value actually current; that an expired entry is reset; that the stored expiry is clock + ttl with 1 <= ttl <= 2^31 (no wrap) and createdAt is that same clock value; that a woken waiter re-runs the lookup (and its expiry test); that nothing on the lookup path extends the expiry; Age is clock - createdAt and is emitted only on hits; the lifetime T is s-maxage, else max-age, over all Cache-Control lines, minus a positive Age, computed from the upstream's own header, not from the stored copy that drops fields; a hit restored from the store takes createdAt (and a non-zero expiry) from the decoded record. Timed histories themselves are not decided.",
+		"Decides that the expiry test (expiredAt >= clock read in this call) is applied on every lookup path that serves a hit or hit-for-pass state, after any load from the store and on the expiry value actually current; that an expired entry is reset; that the stored expiry is clock + ttl with 1 <= ttl <= 2^31 (no wrap) and createdAt is that same clock value; that a woken waiter re-runs the lookup (and its expiry test); that nothing on the lookup path extends the expiry; Age is clock - createdAt and is emitted only on hits; the lookup never overwrites createdAt (a request that already holds the response reads Age afterwards); the persisted status numbers keep their meaning (a marker is not read back as a hit); the lifetime T is s-maxage, else max-age, over all Cache-Control lines, minus a positive Age, computed from the upstream's own header, not from the stored copy that drops fields; a hit restored from the store takes createdAt (and a non-zero expiry) from the decoded record. Timed histories themselves are not decided.",
 		nil, func(c *Ctx) {
 			withAnchors(c, func(a *serverAnchors) {
-				ruleLookup(c, a.cacheA, set("state-determined", "expiry-applied", "invariant-expiry", "hit-data", "returned-status"))
+				ruleLookup(c, a.cacheA, set("state-determined", "expiry-applied", "invariant-expiry", "hit-data", "returned-status", "creation-time-kept"))
+				ruleWireConstants(c)
 				ruleCompletionPaths(c, a.cacheA, set("expiry-value", "ttl-positive", "no-wrap", "stores-response"))
 				ruleLockedWrapper(c, a.cacheA)
 				ruleStoreLoadAtomic(c, a.cacheA)
@@ -97,12 +99,14 @@ func init() {
 			})
 		})
 	register("C07",
-		"Decides, for all configured periods: a lookup in hit-for-pass state is never queued and never served a response; the marker always gets a period >= 1 (the default when the configured one is <= 0) added to the clock; it lapses through the same expiry test as hits, and that test keeps the entry through its expiry second (expired iff expiredAt < now), so the period is not cut short; the configured period is what the fetcher passes and is kept in seconds (never a time.Duration squeezed into the int); the record is saved only after the entry's final state is set; non-fetcher requests never complete (extend) the entry; hit-for-pass requests are forwarded once and reach the upstream with their headers untouched; the upstream transport puts no cap on connections per host (forwarded requests do not queue behind one another inside net/http). Timed histories are not decided.",
+		"Decides, for all configured periods: a lookup in hit-for-pass state is never queued and never served a response; the marker always gets a period >= 1 (the default when the configured one is <= 0) added to the clock; it lapses through the same expiry test as hits, and that test keeps the entry through its expiry second (expired iff expiredAt < now), so the period is not cut short; the configured period is what the fetcher passes and is kept in seconds (never a time.Duration squeezed into the int); the record is saved only after the entry's final state is set, and always when a store is configured (a marker without a response included); non-fetcher requests never complete (extend) the entry; hit-for-pass requests are forwarded once and reach the upstream with their headers untouched; the upstream transport puts no cap on connections per host (forwarded requests do not queue behind one another inside net/http). Timed histories are not decided.",
 		nil, func(c *Ctx) {
 			withAnchors(c, func(a *serverAnchors) {
 				ruleLookup(c, a.cacheA, set("state-determined", "registration", "hit-data", "expiry-applied", "expiry-exact", "invariant-expiry", "returned-status"))
 				ruleCompletionPaths(c, a.cacheA, set("completes-on-every-path", "ttl-positive", "expiry-value", "persist-final"))
 				rulePeriodUnits(c)
+				ruleSaveUnconditional(c, a.cacheA)
+				ruleLookupNilChecked(c)
 				ruleCacheMiddleware(c, a, set("ticket-discharge", "hit-for-pass-period", "completion-only-by-fetcher", "forward-once"))
 				ruleProxyMiddleware(c, a, set("withheld-on-fetch", "lifetime-plumbing"))
 				ruleTransportUnbounded(c)
@@ -112,12 +116,16 @@ func init() {
 			})
 		})
 	register("C08",
-		"Decides the safety clauses: a record is read from the store only on the first lookup of an unknown entry; it is adopted all-or-nothing, only as hit/hit-for-pass with a non-zero expiry (hit with a response); pike's own expiry test is applied to the adopted expiry before the state is served; absolute createdAt/expiredAt are what is written and restored, each number written as the field stands and stored as read; nothing changes the entry's state after the call that saves it; the body of a restored entry is recovered from a stored variant whenever its raw body is empty (a restored record carries an empty, non-nil raw body); each back end's Get, Set and Delete address one and the same record for a key; adoption does not depend on the decoded response's content (empty bodies are valid). The crash-point quantifier (what the store's files contain after a kill) is not applicable to static analysis.",
+		"Decides the safety clauses: a record is read from the store only on the first lookup of an unknown entry; it is adopted all-or-nothing, only as hit/hit-for-pass with a non-zero expiry (hit with a response); pike's own expiry test is applied to the adopted expiry before the state is served; absolute createdAt/expiredAt are what is written and restored, each number written as the field stands and stored as read; nothing changes the entry's state after the call that saves it; the status numbers keep the meaning records already on disk give them; no function outside the verified ones (an eviction hook, say) writes a live entry or a published response; the body of a restored entry is recovered from a stored variant whenever its raw body is empty (a restored record carries an empty, non-nil raw body); each back end's Get, Set and Delete address one and the same record for a key; adoption does not depend on the decoded response's content (empty bodies are valid). The crash-point quantifier (what the store's files contain after a kill) is not applicable to static analysis.",
 		nil, func(c *Ctx) {
 			withAnchors(c, func(a *serverAnchors) {
 				ruleLookup(c, a.cacheA, set("state-determined", "load-on-first-lookup", "load-only-when-unknown", "expiry-applied", "invariant-expiry", "hit-data"))
 				ruleStoreLoadAtomic(c, a.cacheA)
 				ruleCompletionPaths(c, a.cacheA, set("persist-final"))
+				ruleSaveUnconditional(c, a.cacheA)
+				ruleWireConstants(c)
+				rulePublishedResponse(c, a)
+				ruleEntryWriters(c, a.cacheA)
 				ruleEncodedFresh(c)
 				ruleLayout(c)
 				ruleTruncation(c)
@@ -141,6 +149,8 @@ func init() {
 				ruleLookup(c, a.cacheA, set("state-determined", "expiry-applied", "invariant-expiry", "invariant-waiters", "no-exit-unknown", "load-only-when-unknown"))
 				ruleCompletionPaths(c, a.cacheA, set("completes-on-every-path"))
 				ruleCacheMiddleware(c, a, set("ticket-discharge"))
+				ruleLookupNilChecked(c)
+				ruleDecoderStateless(c)
 				ruleDrainShape(c, a.cacheA)
 				rulePurge(c, a.cacheA)
 				ruleDecodersNoPanic(c, map[string]bool{"cache": true})
@@ -177,6 +187,7 @@ func init() {
 		[]string{"groupcache/lru: MaxEntries == 0 means no limit; Add evicts the oldest entry beyond MaxEntries"}, func(c *Ctx) {
 			withAnchors(c, func(a *serverAnchors) {
 				ruleCapacity(c)
+				ruleResetPrunes(c, "cache")
 				ruleLocksNotCopied(c)
 				ruleEntryContainers(c, a.cacheA)
 				ruleGetOrCreate(c)
@@ -238,11 +249,12 @@ func init() {
 				ruleRawProvenance(c)
 				ruleProxyMiddleware(c, a, set("server-settings"))
 				ruleValidatorsAgree(c)
+				ruleForwarders(c, "compress")
 				ruleCtorUpdateAgree(c)
 			})
 		})
 	register("C12",
-		"Decides stream finalisation order (the compressing writer is closed on every successful path and the buffer is not read before that), level clamping for every int (the value reaching gzip.NewWriterLevel is in [-2,9], brotli's in [0,11]), propagation of every codec library error, the lz4 destination bound (a short-buffer failure is final only at 255 x input) that the lz4 retry loop has a feasible exit while the short-buffer error persists (no hang on malformed blocks), the decoder dispatch, that pike's own decoder code has no Must* call, explicit panic, allocation sized by an unchecked number taken from the stream or index that is not provably inside the data, that the five decoders are reached under the documented wire names, and that the zstd decoder is built without options that reject valid frames. That the codec libraries are exact inverses for every byte string and themselves never panic on malformed input is behaviour of third-party code: not applicable to static analysis.",
+		"Decides stream finalisation order (the compressing writer is closed on every successful path and the buffer is not read before that), level clamping for every int (the value reaching gzip.NewWriterLevel is in [-2,9], brotli's in [0,11]), propagation of every codec library error, the lz4 destination bound (a short-buffer failure is final only at 255 x input) that the lz4 retry loop has a feasible exit while the short-buffer error persists (no hang on malformed blocks), the decoder dispatch, that pike's own decoder code has no Must* call, explicit panic, allocation sized by an unchecked number taken from the stream or index that is not provably inside the data, that the five decoders are reached under the documented wire names, and that the zstd decoder is built without options that reject valid frames or whose value is taken from the machine (GOMAXPROCS, environment). That the codec libraries are exact inverses for every byte string and themselves never panic on malformed input is behaviour of third-party code: not applicable to static analysis.",
 		nil, func(c *Ctx) {
 			ruleEncoders(c)
 			ruleLevelApplied(c)
@@ -260,9 +272,11 @@ func init() {
 			ruleDecoderBounds(c, map[string]bool{"compress": true})
 		})
 	register("C09",
-		"Decides writer/reader layout agreement for both record types (element kinds, widths, order and the field each element belongs to, every variable-length element preceded by its own length), that every read is bounded (fixed-width reads fail on short input, variable reads are checked against 0 and the remaining length), that no allocation in a decoder is sized by record data and no decoder calls a panicking-by-contract function (Must*) on record data, that every index and fixed-width byte-order read in a decoder is inside the data by the comparisons made before it, that the loader accepts every record the completions write (adoption depends only on status, expiry and the presence of a response, not on its content), that a record cut anywhere fails to decode (the tail is a checked read), that encoded records are freshly allocated, and that integer writers and readers agree on width and byte order. Exact value round-trip of contents (e.g. JSON re-encoding of non-UTF-8 header values) is value semantics of libraries and not decided.",
+		"Decides writer/reader layout agreement for both record types (element kinds, widths, order and the field each element belongs to, every variable-length element preceded by its own length), that every read is bounded (fixed-width reads fail on short input, variable reads are checked against 0 and the remaining length), that no allocation in a decoder is sized by record data and no decoder calls a panicking-by-contract function (Must*) on record data, that every index and fixed-width byte-order read in a decoder is inside the data by the comparisons made before it, that the loader accepts every record the completions write (adoption depends only on status, expiry and the presence of a response, not on its content), that a record cut anywhere fails to decode (the tail is a checked read), that encoded records are freshly allocated, that integer writers and readers agree on width and byte order, that the persisted status numbers are the ones records on disk carry, and that decoding keeps no package-level state (the same record always decodes the same way). Exact value round-trip of contents (e.g. JSON re-encoding of non-UTF-8 header values) is value semantics of libraries and not decided.",
 		nil, func(c *Ctx) {
 			ruleLayout(c)
+			ruleWireConstants(c)
+			ruleDecoderStateless(c)
 			ruleBoundedReads(c)
 			ruleTruncation(c)
 			ruleEncodedFresh(c)
@@ -288,7 +302,7 @@ func init() {
 			})
 		})
 	register("C15",
-		"Decides which request state the proxy middleware changes before the upstream call and that each change is undone on every exit after it: on a cold (fetching) request If-None-Match, If-Modified-Since, Range and If-Range are removed or known absent at the upstream call, on every other request they are untouched; every header the middleware removed or overrode (incl. Accept-Encoding) is set back to the value read before; the upstream's Accept-Encoding override is exactly the configured value; the location's configured request headers and query parameters are added next to the client's own (never set over, assigned or deleted); every wildcard of a rewrite rule becomes a capture group and each rule is matched against what the previous rules produced; the location's response headers are added to the upstream's header before the response (and its header clone) is built; a lifetime is recorded only for fetchers; the original next handler is restored and run once. What the upstream receives byte for byte is not decided.",
+		"Decides which request state the proxy middleware changes before the upstream call and that each change is undone on every exit after it: on a cold (fetching) request If-None-Match, If-Modified-Since, Range and If-Range are removed or known absent at the upstream call, on every other request they are untouched; every header the middleware removed or overrode (incl. Accept-Encoding) is set back to the value read before; the upstream's Accept-Encoding override is exactly the configured value; the location's configured request headers and query parameters are added next to the client's own (never set over, assigned or deleted); every wildcard of a rewrite rule becomes a capture group and each rule is matched against what the previous rules produced; configured header and query values are used as written (only a leading '$' means an environment lookup); the location's response headers are added to the upstream's header before the response (and its header clone) is built; a lifetime is recorded only for fetchers; the original next handler is restored and run once. What the upstream receives byte for byte is not decided.",
 		nil, func(c *Ctx) {
 			withAnchors(c, func(a *serverAnchors) {
 				ruleProxyMiddleware(c, a, set("withheld-on-fetch", "restore", "accept-encoding-override", "location-edits-order", "lifetime-plumbing", "next-restored", "response-built", "forward-once", "upstream-error-propagates"))
@@ -302,11 +316,12 @@ func init() {
 				ruleRewriteMatch(c)
 				ruleRewriteSource(c)
 				ruleRewriteChain(c)
+				ruleConfigValueVerbatim(c)
 				ruleChainOrder(c, a)
 			})
 		})
 	register("C16",
-		"Decides that the two ways a configuration reaches a running object agree: NewServer and Update compute the same value from the option for every field both assign (only the documented restart-only fields are construction-only); main.update applies every section of the configuration just read and then starts the servers; every registry's reset removes names that disappeared (or replaces the collection wholesale); surviving caches are kept; persistent stores are closed only by package store (they are registry singletons that are never re-opened); every configured upstream and compress profile is replaced by one freshly built from the new options; only instances no longer in service are destroyed; removed servers are closed; the proxy resolves the server's locations, and the cache middleware the server's cache, per request (nothing captured when the handler was built); a server is marked as listening only after net.Listen succeeded, so a failed start is retried by the next update; starting the server list visits and starts every registered server; closing a listening server clears that flag and closes its HTTP server and listener; the package-level entry points main.update calls hand the configuration, converted by the package's converter, to the one default registry. The file watcher calls back on every write event and leaves its loop only when the watcher is closed. Differential behaviour of two live processes and in-flight requests during the swap are not decided.",
+		"Decides that the two ways a configuration reaches a running object agree: NewServer and Update compute the same value from the option for every field both assign (only the documented restart-only fields are construction-only); main.update applies every section of the configuration just read, each referenced section before the ones that name it, and then starts the servers; every registry's reset removes names that disappeared (or replaces the collection wholesale) on every path, an empty configuration included; surviving caches are kept; persistent stores are closed only by package store (they are registry singletons that are never re-opened); every configured upstream and compress profile is replaced by one freshly built from the new options; only instances no longer in service are destroyed; removed servers are closed; the proxy resolves the server's locations, and the cache middleware the server's cache, per request (nothing captured when the handler was built); a server is marked as listening only after net.Listen succeeded, so a failed start is retried by the next update; starting the server list visits and starts every registered server; closing a listening server clears that flag and closes its HTTP server and listener; the package-level entry points main.update calls hand the configuration, converted by the package's converter, to the one default registry. The file watcher recognises a write by masking the event's bit set, calls back on every write event and leaves its loop only when the watcher is closed. Differential behaviour of two live processes and in-flight requests during the swap are not decided.",
 		nil, func(c *Ctx) {
 			ruleCtorUpdateAgree(c)
 			ruleConverters(c)
@@ -336,6 +351,7 @@ func init() {
 		[]string{"github.com/vicanso/upstream: Next() returns only servers whose last health check passed, backups only when no primary is healthy"}, func(c *Ctx) {
 			withAnchors(c, func(a *serverAnchors) {
 				ruleUpstreamCtor(c)
+				ruleYAMLTable(c)
 				rulePoolFields(c)
 				ruleUpstreamContract(c)
 				ruleConverters(c)
@@ -349,7 +365,7 @@ func init() {
 			})
 		})
 	register("C17",
-		"Decides that Validate runs field validation first and checks each of the four reference relations on exactly the (referrer field, referenced name) pair, per referrer, returning its error; that a reference whose run-time lookup can come back nil (the server's cache, the location's upstream) cannot be left empty in an accepted configuration; that the run-time lookups go to the same default registries the reload fills and are made per request with the server's current settings; that each configuration back end reads, writes and watches one and the same location, writes the bytes it is given, and that Read decodes the bytes it read into the configuration it returns; that Write stores the YAML of the configuration only after Validate returned nil and never reports success without writing; that no configuration field is lost or merged by the YAML/JSON field table; that every validate tag is registered and every place that leniently parses a configuration field uses the parser its validator uses (including a value the upstream library parses on pike's behalf). Quoting behaviour of the YAML library is not decided.",
+		"Decides that Validate runs field validation first and checks each of the four reference relations on exactly the (referrer field, referenced name) pair, per referrer, returning its error; that a reference whose run-time lookup can come back nil (the server's cache, the location's upstream) cannot be left empty in an accepted configuration; that the run-time lookups go to the same default registries the reload fills and are made per request with the server's current settings; that each configuration back end reads, writes and watches one and the same location, writes the bytes it is given, and that Read decodes the bytes it read into the configuration it returns; that Write stores the YAML of the configuration only after Validate returned nil and never reports success without writing; that no configuration field is lost or merged by the YAML/JSON field table, the YAML key of every field is its documented (JSON) key and the shipped pike.yml uses known keys only; that the admin handlers write configuration entries back only as copies of the entries they annotate; that every validate tag is registered and every place that leniently parses a configuration field uses the parser its validator uses (including a value the upstream library parses on pike's behalf). Quoting behaviour of the YAML library is not decided.",
 		nil, func(c *Ctx) {
 			ruleValidateRefs(c)
 			ruleRequiredRefs(c)
@@ -362,13 +378,14 @@ func init() {
 			ruleForwarders(c, "cache", "upstream", "compress", "location")
 			ruleWriteValidates(c)
 			ruleYAMLTable(c)
+			ruleAnnotatePreserves(c)
 			ruleValidatorsAgree(c)
 			ruleConverters(c)
 			ruleKeepCache(c)
 			ruleStoreOpenNonFatal(c)
 		})
 	register("C20",
-		"Decides lock discipline for all shared mutable state reachable from main (request, purge, admin and reload paths): every access to a guarded field (entry state, shard LRU, server settings, location list) holds the owner's lock in a sufficient mode, locally or through every caller; every lock is released on every return; the lock-order graph is acyclic; fields read without a lock are written only while their object is private to its constructor; a published response is never written; memory from a sync.Pool never escapes into keys, bodies or records; error values (which reach requests through shared package-level sentinels) are written only by the function that built them; no value holding a lock is copied; slices owned by the upstream pool are never written; configuration reloads are invoked synchronously from the single watcher goroutine; the entry lookup is made under the write lock and a woken waiter re-reads under the lock. Race-detector stress and 'the process does not crash' over schedules are not applicable to static analysis.",
+		"Decides lock discipline for all shared mutable state reachable from main (request, purge, admin and reload paths): every access to a guarded field (entry state, shard LRU, server settings, location list) holds the owner's lock in a sufficient mode, locally or through every caller; every lock is released on every return; the lock-order graph is acyclic; fields read without a lock are written only while their object is private to its constructor; a published response is never written; memory from a sync.Pool never escapes into keys, bodies or records; error values (which reach requests through shared package-level sentinels) are written only by the function that built them; no value holding a lock is copied; slices owned by the upstream pool are never written; configuration reloads are invoked synchronously from the single watcher goroutine; the entry lookup is made under the write lock and a woken waiter re-reads under the lock; a registry lookup that can return nil is tested before use; a reload publishes referenced sections before the sections that name them. Race-detector stress and 'the process does not crash' over schedules are not applicable to static analysis.",
 		nil, func(c *Ctx) {
 			withAnchors(c, func(a *serverAnchors) {
 				ruleLockset(c)
@@ -389,6 +406,9 @@ func init() {
 				ruleGetOrCreate(c)
 				ruleCompletionPaths(c, a.cacheA, set("locked", "completes-on-every-path"))
 				ruleCacheMiddleware(c, a, set("ticket-discharge"))
+				ruleLookupNilChecked(c)
+				ruleSectionsApplied(c)
+				ruleLookup(c, a.cacheA, set("creation-time-kept"))
 				rulePrecompress(c, a)
 				ruleEntryWriters(c, a.cacheA)
 			})
